@@ -23,7 +23,7 @@ ASSUMPTIONS = [
 
 PROBE = "PrObE"
 DEFAULTS = ["v0", 11, "v2", 13, "v4", 15]
-NSK = 10
+NSK = 13
 
 
 class _Color(Enum):
@@ -71,6 +71,21 @@ def build(sk, d, V):
         cte = QS[0].from_(u).select(u.k).where(u.w == V[0])
         from pypika_tortoise import AliasedQuery
         return (Q.with_(cte, "c").into(t).from_(AliasedQuery("c")).select(Field("k"), fn.Coalesce(Field("j"), V[1])).where(Field("k") > V[2])), 3
+    if sk == 10:  # several values inside one arithmetic expression, both operands compound
+        expr = ((t.a + V[0]) * (t.b - V[1])) / (V[2] + t.c)
+        return Q.from_(t).select(expr.as_("e")).where(t.d + V[3] > V[4] - t.e), 5
+    if sk == 11:  # aliased select terms with values, DISTINCT, ORDER BY an aliased term of the select list; a set
+        # operation ordered by an aliased select term
+        x = fn.Coalesce(t.a, V[0]).as_("x")
+        y = Case().when(t.b == V[1], V[2]).else_(V[3]).as_("y")
+        q1 = Q.from_(t).select(x, y).distinct().where(t.c == V[4]).orderby(y)
+        q2 = Q.from_(u).select(u.a, u.b)
+        return q1.union_all(q2).orderby(y).limit(5).offset(6), 5
+    if sk == 12:  # DISTINCT ON (PostgreSQL builder; plain DISTINCT elsewhere) before select-list values; negated and
+        # nested criteria
+        q = Q.from_(t).select(fn.Coalesce(t.a, V[1]), -(t.b + V[2]))
+        q = q.distinct_on(fn.Coalesce(t.g, V[0])) if d == 2 else q.distinct().where(t.g == V[0])
+        return q.where(~((t.c == V[3]) | (t.d != V[4]))), 5
     raise AssertionError(sk)
 
 
@@ -264,6 +279,10 @@ def check(name, sk, d, slot, v, exempt, args):
     for x in vals:
         if isinstance(x, Node):
             ok, why = False, "query-builder object in the value list"
+        if isinstance(x, (list, tuple)):
+            for y in x:
+                if isinstance(y, Node):
+                    ok, why = False, "query-builder object inside a list of the value list"
     # (3) a parameterised value is not in the SQL text: the SQL does not depend on it at all
     if ok and not exempt:
         if psql != psql_p:
@@ -319,7 +338,7 @@ def check(name, sk, d, slot, v, exempt, args):
     timeout={"quick": 120, "thorough": 900},
     witness=[dict(sk=0, d=2, slot=0, s="x'"), dict(sk=2, d=2, slot=1, s="ab"), dict(sk=4, d=1, slot=3, s="*"),
              dict(sk=7, d=2, slot=1, s="q")],
-    doc="10 skeletons x 6 dialect classes x value slot; the chosen slot holds any string (len<=L), the others distinct "
+    doc="13 skeletons x 6 dialect classes x value slot; the chosen slot holds any string (len<=L), the others distinct "
         "concrete values; '*' is the documented exemption",
 )
 def c04_str(sk: int, d: int, slot: int, s: str) -> int:
